@@ -979,6 +979,22 @@ def _vname(v):
     return str(v)
 
 
+def _report_escapes(ctx, A, label):
+    """A transition that calls error() and afterwards leaves the error state again.  Escapes whose target
+    is a successor of the error state itself are consequences of a non-absorbing error state (reported by
+    <label>:error-absorbing) and only listed in the detail; any other escape is a handler that overwrites
+    the state after error()."""
+    row = {t[1] for t in A.end.get(A.error, ()) if t != TOP}
+    for tg in A.tags:
+        row |= {t[1] for t in A.start.get((A.error, tg), ()) if t != TOP}
+    own = sorted((k, A.sname(s), A.tname(t) if t is not None else "", A.sname(v))
+                 for k, s, t, v in A.escapes if v not in row)
+    ctx.report(RULE, "%s:error-escape" % label, not own,
+               msg="" if not own else "after error() the state is overwritten with a non-error state "
+               "(the diagnostic is lost or delayed): %s" % own[:6],
+               detail={"explained-by-error-row": len(A.escapes) - len(own)})
+
+
 def _error_fn_check(ctx, fx, error_value):
     fsm.check_error_fn(ctx, fx, error_value)
 
@@ -1157,6 +1173,7 @@ def rule_lnar(ctx):
     if A.unbounded:
         ctx.note("LNARparser: unbounded nesting cycles (post-state, tag): %s"
                  % sorted((sname.get(a), tname.get(b)) for a, b in A.unbounded))
+    _report_escapes(ctx, A, "LNARparser")
     ctx.floor(RULE, 150, len(reach), "reachable LNARparser states")
     ctx.floor(RULE, 10000, n_trans, "LNARparser transitions checked")
     # table construction
@@ -1347,6 +1364,7 @@ def rule_dataparser(ctx):
     if A.unbounded:
         ctx.note("DataParser: unbounded nesting cycles (post-state, tag): %s"
                  % sorted((sname.get(a), tname.get(b)) for a, b in A.unbounded))
+    _report_escapes(ctx, A, "DataParser")
     ctx.floor(RULE, 250, len(reach), "reachable DataParser states")
     ctx.floor(RULE, 40000, n_trans, "DataParser transitions checked")
 
@@ -1382,3 +1400,559 @@ def rule_dataparser(ctx):
             used.add(t)
     _f5(ctx, "DataParser", tag_fn, X["tags_e"], tmap, used, T["unknown_tag"], 160)
     return A, configs, edges, tmap
+
+
+# --------------------------------------------------------------------------- XSD helpers
+
+XS = "{http://www.w3.org/2001/XMLSchema}"
+
+
+class Xsd:
+    """Parent/child element relation and attribute sets of an XML schema (xs:element / complexType /
+    sequence / choice / all / extension / attribute; references by name)."""
+
+    def __init__(self, path):
+        if not os.path.exists(path):
+            raise AnalysisBroken("schema %s not found" % path)
+        try:
+            self.root = ET.parse(path).getroot()
+        except ET.ParseError as e:
+            raise AnalysisBroken("schema %s is not well-formed: %s" % (path, e))
+        self.gelems = {e.get("name"): e for e in self.root.findall(XS + "element")}
+        self.gtypes = {e.get("name"): e for e in self.root.findall(XS + "complexType")}
+        self.all_names = {e.get("name") for e in self.root.iter(XS + "element") if e.get("name")}
+        self._memo = {}
+
+    @staticmethod
+    def _local(q):
+        return q.split(":")[-1] if q else q
+
+    def _content(self, node, kids, attrs, depth=0):
+        if depth > 30:
+            raise AnalysisBroken("schema type recursion")
+        for ch in node:
+            tag = ch.tag
+            if tag == XS + "element":
+                name = ch.get("name") or self._local(ch.get("ref"))
+                kids.add(name)
+                if ch.get("name") and ch.get("name") not in self.gelems:
+                    self._memo.setdefault(("local", name), ch)
+            elif tag == XS + "attribute":
+                if ch.get("use") != "prohibited":
+                    attrs.add(ch.get("name") or self._local(ch.get("ref")))
+            elif tag in (XS + "extension", XS + "restriction"):
+                base = self._local(ch.get("base"))
+                if base in self.gtypes:
+                    self._content(self.gtypes[base], kids, attrs, depth + 1)
+                self._content(ch, kids, attrs, depth + 1)
+            elif tag in (XS + "complexType", XS + "sequence", XS + "choice", XS + "all",
+                         XS + "complexContent", XS + "simpleContent"):
+                self._content(ch, kids, attrs, depth + 1)
+
+    def describe(self, name):
+        """(children, attributes) of the element called name"""
+        if name in self._memo and not isinstance(self._memo[name], ET.Element):
+            return self._memo[name]
+        e = self.gelems.get(name)
+        if e is None:
+            e = self._memo.get(("local", name))
+        if e is None:
+            return None
+        kids, attrs = set(), set()
+        t = self._local(e.get("type"))
+        if t in self.gtypes:
+            self._content(self.gtypes[t], kids, attrs)
+        self._content(e, kids, attrs)
+        self._memo[name] = (kids, attrs)
+        return kids, attrs
+
+    def reachable(self, root):
+        seen, todo = set(), [root]
+        while todo:
+            n = todo.pop()
+            if n in seen:
+                continue
+            d = self.describe(n)
+            if d is None:
+                raise AnalysisBroken("schema refers to an undeclared element %s" % n)
+            seen.add(n)
+            todo.extend(d[0])
+        return seen
+
+
+# --------------------------------------------------------------------------- F6: GKFparser vs gama-local.xsd
+
+def _string_eq_literals(fn, var_decl):
+    """(literal, comparison node, op) for every ==/!= comparison of local var_decl with a string literal"""
+    out = []
+    for n in fn.walk():
+        if n.get("k") not in ("CXXOperatorCallExpr", "BinaryOperator") or n.get("op") not in ("==", "!="):
+            continue
+        args = (n.get("c") or [])[1:] if n["k"] == "CXXOperatorCallExpr" else (n.get("c") or [])
+        if len(args) != 2:
+            continue
+
+        def strip(x):
+            while x is not None and x.get("k") in _CASTS + ("CXXConstructExpr",) and len(x.get("c") or []) == 1:
+                x = x["c"][0]
+            return x
+        a, b = strip(args[0]), strip(args[1])
+        for v, l in ((a, b), (b, a)):
+            if (v is not None and l is not None and v.get("k") == "DeclRefExpr"
+                    and v["ref"].get("decl") == var_decl and l.get("k") == "StringLiteral"):
+                out.append((l.get("v"), n, n.get("op")))
+    return out
+
+
+def _atts_reads(fn, atts_decl):
+    """Assignments/initialisations of locals from successive elements of the expat attribute array:
+    list of (target decl, node) in execution order, name/value alternating."""
+    reads = []
+
+    def from_atts(x):
+        for y in walk(x):
+            if y.get("k") == "UnaryOperator" and y.get("op") == "*":
+                for z in walk(y):
+                    if z.get("k") == "DeclRefExpr" and z["ref"].get("decl") == atts_decl:
+                        return ("seq", None)
+            if y.get("k") == "ArraySubscriptExpr":
+                c = y.get("c") or []
+                if len(c) == 2 and c[0].get("k") == "DeclRefExpr" and c[0]["ref"].get("decl") == atts_decl \
+                        and c[1].get("k") == "IntegerLiteral":
+                    return ("idx", c[1].get("v"))
+        return None
+
+    for n in fn.walk():
+        tgt, src = None, None
+        if n.get("k") == "CXXOperatorCallExpr" and n.get("op") == "=":
+            c = n.get("c") or []
+            if len(c) == 3 and c[1].get("k") == "DeclRefExpr" and c[1]["ref"].get("dk") == "local":
+                tgt, src = c[1]["ref"]["decl"], c[2]
+        elif n.get("k") == "BinaryOperator" and n.get("op") == "=":
+            c = n.get("c") or []
+            if c[0].get("k") == "DeclRefExpr" and c[0]["ref"].get("dk") == "local":
+                tgt, src = c[0]["ref"]["decl"], c[1]
+        elif n.get("k") == "DeclStmt":
+            for d in n.get("decls", []):
+                if d.get("init") is not None:
+                    how = from_atts(d["init"])
+                    if how:
+                        reads.append((d["decl"], n, how))
+            continue
+        if tgt is not None:
+            how = from_atts(src)
+            if how:
+                reads.append((tgt, n, how))
+    return reads
+
+
+def _attr_names(fx, fn, hier, seen=None):
+    """Attribute names accepted by handler fn: dict with 'accepted' (set), 'any' (attributes are not
+    inspected at all), 'first_only' (the attribute read is not in a loop although names are accepted)."""
+    seen = seen or set()
+    if fn.key in seen:
+        return {"accepted": set(), "refused": set(), "inspects": False, "first_only": False}
+    seen = seen | {fn.key}
+    res = {"accepted": set(), "refused": set(), "inspects": False, "first_only": False}
+    atts = [p for p in fn.params if p["t"].replace(" ", "") == "constchar**"]
+    if not atts:
+        return res
+    atts_decl = atts[0]["decl"]
+    cfg = fn.cfg
+    reads = _atts_reads(fn, atts_decl)
+    # helper calls that receive the attribute array
+    for n in fn.calls():
+        if n.get("k") != "CXXMemberCallExpr" or not _is_this(F.call_object(n)):
+            continue
+        if strip_targs(n.get("calleeClass") or "") not in hier:
+            continue
+        if any(a.get("k") == "DeclRefExpr" and a["ref"].get("decl") == atts_decl for a in (n.get("c") or [])[1:]):
+            callee = fx.functions.get(n.get("calleeKey"))
+            if callee is not None and callee.body is not None:
+                sub = _attr_names(fx, callee, hier, seen)
+                for k in ("accepted", "refused"):
+                    res[k] |= sub[k]
+                res["inspects"] |= sub["inspects"]
+                res["first_only"] |= sub["first_only"]
+    if not reads:
+        return res
+    res["inspects"] = True
+    # which local holds the attribute name: even position in the read sequence / even index
+    name_vars = set()
+    seq = [r for r in reads if r[2][0] == "seq"]
+    for d, n, how in reads:
+        if how[0] == "idx" and how[1] % 2 == 0:
+            name_vars.add(d)
+    if seq:
+        first = None
+        for d, n, how in seq:
+            if all(n is m or cfg.dominates(n, m) or not cfg.dominates(m, n) for _, m, _ in seq) and \
+                    all(n is m or cfg.dominates(n, m) for _, m, _ in seq if m is not n):
+                first = (d, n)
+        if first is None:
+            raise AnalysisBroken("%s: cannot order the reads of the attribute array" % fn.key)
+        # alternate: order all sequential reads by dominance from the first
+        order = sorted(seq, key=lambda r: sum(1 for _, m, _ in seq if m is not r[1] and cfg.dominates(m, r[1])))
+        for i, (d, n, how) in enumerate(order):
+            if i % 2 == 0:
+                name_vars.add(d)
+    if not name_vars:
+        raise AnalysisBroken("%s: attribute loop idiom not recognised" % fn.key)
+    err_blocks = set()
+    for n in fn.calls():
+        if n.get("k") == "CXXMemberCallExpr" and strip_targs(n.get("callee") or "") == "GNU_gama::CoreParser::error" \
+                and _is_this(F.call_object(n)):
+            p = cfg.block_of(n)
+            if p is not None:
+                err_blocks.add(p[0])
+    in_loop = False
+    for d, n, how in reads:
+        p = cfg.block_of(n)
+        if d in name_vars and p is not None:
+            succs = cfg.succ.get(p[0], [])
+            if any(p[0] in cfg.reachable_blocks_from(s) for s in succs):
+                in_loop = True
+    for v in name_vars:
+        for lit, cmp_node, op in _string_eq_literals(fn, v):
+            blk = None
+            for bid, b in cfg.blocks.items():
+                if b.get("cond") == cmp_node["id"]:
+                    blk = b
+            if blk is None or len(blk.get("succ", [])) != 2:
+                raise AnalysisBroken("%s: comparison of the attribute name with %r is not a branch condition"
+                                     % (fn.key, lit))
+            tgt = blk["succ"][0 if op == "==" else 1]
+            ok = tgt is not None and tgt >= 0 and cfg.paths_avoiding(tgt, err_blocks, {cfg.exit})
+            (res["accepted"] if ok else res["refused"]).add(lit)
+    if res["accepted"] and not in_loop:
+        res["first_only"] = True
+    return res
+
+
+def rule_xsd_gkf(ctx):
+    fx = ctx.facts
+    T = table()["xsd_gkf"]
+    xsd = Xsd(os.path.join(ctx.root, T["schema"]))
+    A, sp, tag_fn = fsm.extract_gkf(ctx)
+    tmap = fsm.tag_function_map(tag_fn)
+    strings = {}
+    for lit, (name, v) in tmap.items():
+        strings.setdefault(v, set()).add(lit)
+    configs, edges = A.explore()
+    DOC = "#document"
+    par = {}          # parent string -> set of child strings accepted
+    handlers = {}     # element string -> set of handler Fn
+    start_fn = fx.fn("GNU_gama::local::GKFparser::startElement")
+    cls = "GNU_gama::local::GKFparser"
+    hier = {cls, "GNU_gama::CoreParser", "GNU_gama::BaseParser"}
+    for (s, st), lab, (s2, st2), tok in edges:
+        if lab[0] != "start" or tok == TOP or tok[1] == A.error:
+            continue
+        t = lab[1]
+        if t not in strings:
+            continue
+        parents = strings.get(st[-1], set()) if st else {DOC}
+        for p in parents:
+            par.setdefault(p, set()).update(strings[t])
+        # handler(s) reached by startElement for this (state, tag)
+        hs = set()
+        for mk, callees in sp.calls_seen.items():
+            if mk[0] == start_fn.key and mk[1] == ("c", s, "in") and any(v == t for _, v in mk[2]):
+                for q in callees:
+                    for f in fx.fns(q):
+                        if f.key != tag_fn.key and strip_targs(f.rec["qn"]) != "GNU_gama::CoreParser::error" \
+                                and any(p["t"].replace(" ", "") == "constchar**" for p in f.params):
+                            hs.add(f)
+        for lit in strings[t]:
+            handlers.setdefault(lit, []).append(hs)
+    ext_children = T.get("children_extensions", {})
+    ext_attrs = T.get("attribute_extensions", {})
+    aliases = T.get("element_aliases", {})
+    root = T["root"]
+    xsd_elems = xsd.reachable(root)
+    all_strings = set(x for ls in strings.values() for x in ls)
+    for a in aliases:
+        if a in tmap and aliases[a]["of"] in tmap and tmap[a][1] != tmap[aliases[a]["of"]][1]:
+            raise AnalysisBroken("alias %s is not mapped to the enumerator of %s by tag()" % (a, aliases[a]["of"]))
+    names = sorted(set(par) | xsd_elems | all_strings | {DOC})
+    n_children = n_attrs = 0
+    for e in names:
+        if e == DOC:
+            want = {root}
+        else:
+            d = xsd.describe(aliases[e]["of"] if e in aliases else e)
+            want = set(d[0]) if d else None
+        got = set(par.get(e, set()))
+        ext = ext_children.get(e, {})
+        problems = []
+        if e in aliases and (aliases[e]["of"] not in xsd_elems or e in xsd.all_names
+                             or e not in all_strings):
+            problems.append("stale alias entry (an alias is a name the parser maps to the enumerator of a "
+                            "schema element and that the schema itself does not declare)")
+        if want is not None:
+            want |= {a for a in aliases if aliases[a]["of"] in want}
+        if want is None:
+            problems.append("element accepted by the parser is not declared in %s" % T["schema"])
+            want = set()
+        for x in sorted(ext):
+            if x not in got or x in want:
+                problems.append("stale extension entry %s" % x)
+        extra = got - want - set(ext)
+        missing = want - got
+        if extra:
+            problems.append("parser accepts child element(s) %s that the schema does not allow" % sorted(extra))
+        if missing:
+            problems.append("schema allows child element(s) %s that the parser refuses" % sorted(missing))
+        n_children += 1
+        ctx.report(RULE, "GKFparser:xsd:children:%s" % e, not problems, start_fn.where(), start_fn.short,
+                   msg="; ".join(problems), detail={"parser": sorted(got), "xsd": sorted(want),
+                                                     "extensions": sorted(ext)})
+        if e == DOC:
+            continue
+        # attributes
+        d = xsd.describe(aliases[e]["of"] if e in aliases else e)
+        want_a = set(d[1]) if d else set()
+        ext = ext_attrs.get(e, {})
+        problems = []
+        accepted, uninspected, first_only, hnames = set(), False, False, set()
+        for hs in handlers.get(e, []):
+            if not hs:
+                uninspected = True
+            for h in hs:
+                ctx.saw(h)
+                hnames.add(h.short)
+                r = _attr_names(fx, h, hier)
+                accepted |= r["accepted"]
+                if not r["inspects"]:
+                    uninspected = True
+                first_only |= r["first_only"]
+        if e not in handlers:
+            problems.append("no reachable start transition accepts <%s>" % e)
+        if uninspected:
+            problems.append("the attributes of <%s> are not inspected: any attribute is accepted" % e)
+        if first_only:
+            problems.append("only the first attribute of <%s> is inspected (the attribute array is not read "
+                            "in a loop): further attributes are silently ignored" % e)
+        for x in sorted(ext):
+            if x not in accepted or x in want_a:
+                problems.append("stale extension entry %s" % x)
+        extra = accepted - want_a - set(ext)
+        missing = want_a - accepted
+        if extra:
+            problems.append("parser accepts attribute(s) %s not in the schema" % sorted(extra))
+        if missing:
+            problems.append("schema attribute(s) %s are refused by the parser" % sorted(missing))
+        n_attrs += 1
+        ctx.report(RULE, "GKFparser:xsd:attrs:%s" % e, not problems, start_fn.where(),
+                   ", ".join(sorted(hnames)), msg="; ".join(problems),
+                   detail={"parser": sorted(accepted), "xsd": sorted(want_a), "extensions": sorted(ext)})
+    ctx.floor(RULE, 20, n_children, "GKFparser elements compared with the schema (children)")
+    ctx.floor(RULE, 19, n_attrs, "GKFparser elements compared with the schema (attributes)")
+
+
+# --------------------------------------------------------------------------- C12 vocabulary
+
+_TAG_RE = re.compile(r"<(/?)([A-Za-z_][A-Za-z0-9_.\-]*)?")
+
+
+def _flatten_stream(n):
+    """operands of a chain a << b << c (left to right), or None if n is not an ostream insertion"""
+    if n.get("k") != "CXXOperatorCallExpr" or n.get("op") != "<<":
+        return None
+    c = n.get("c") or []
+    if len(c) != 3:
+        return None
+    left = _flatten_stream(c[1])
+    return (left if left is not None else [c[1]]) + [c[2]]
+
+
+class _Strings:
+    """possible literal values of a `const char*` / std::string expression (names of written elements)"""
+
+    def __init__(self, fx, scope):
+        self.fx = fx
+        self.scope = scope
+        self.by_qn = {}
+        for f in scope:
+            self.by_qn.setdefault(f.qn, []).append(f)
+
+    def of(self, fn, n, depth=0):
+        if n is None or depth > 8:
+            return {None}
+        k = n.get("k")
+        c = n.get("c") or []
+        if k == "StringLiteral":
+            return {n.get("v")}
+        if k in _CASTS or (k in ("CXXConstructExpr", "CXXTemporaryObjectExpr") and len(c) == 1):
+            return self.of(fn, c[0], depth + 1)
+        if k == "CXXOperatorCallExpr" and n.get("op") == "=" and len(c) == 3:
+            return self.of(fn, c[2], depth + 1)
+        if k == "BinaryOperator" and n.get("op") == "=":
+            return self.of(fn, c[1], depth + 1)
+        if k == "ConditionalOperator" and len(c) == 3:
+            return self.of(fn, c[1], depth + 1) | self.of(fn, c[2], depth + 1)
+        if k == "DeclRefExpr" and n["ref"].get("dk") == "local":
+            d = n["ref"]["decl"]
+            out = set()
+            for x in fn.walk():
+                if x.get("k") == "DeclStmt":
+                    for dd in x.get("decls", []):
+                        if dd["decl"] == d and dd.get("init") is not None:
+                            out |= self.of(fn, dd["init"], depth + 1)
+                elif x.get("k") == "BinaryOperator" and x.get("op") == "=" and \
+                        x["c"][0].get("k") == "DeclRefExpr" and x["c"][0]["ref"].get("decl") == d:
+                    out |= self.of(fn, x["c"][1], depth + 1)
+                elif x.get("k") == "CXXOperatorCallExpr" and x.get("op") == "=" and len(x.get("c") or []) == 3 \
+                        and x["c"][1].get("k") == "DeclRefExpr" and x["c"][1]["ref"].get("decl") == d:
+                    out |= self.of(fn, x["c"][2], depth + 1)
+            return out or {None}
+        if k == "DeclRefExpr" and n["ref"].get("dk") == "parm":
+            d = n["ref"]["decl"]
+            idx = [i for i, p in enumerate(fn.params) if p["decl"] == d]
+            if not idx:
+                return {None}
+            out = set()
+            for g in self.scope:
+                for call in g.calls():
+                    callee = strip_targs(call.get("callee") or "")
+                    if callee != fn.qn:
+                        continue
+                    args = F.call_args(call)
+                    if idx[0] < len(args):
+                        out |= self.of(g, args[idx[0]], depth + 1)
+            return out or {None}
+        if k == "MemberExpr" and n.get("mk") == "field":
+            owner = strip_targs(n.get("owner") or "")
+            out = set()
+            for g in self.scope:
+                if strip_targs(g.cls or "") != owner:
+                    continue
+                for x in g.walk():
+                    if x.get("k") == "CXXOperatorCallExpr" and x.get("op") == "=" and len(x.get("c") or []) == 3 \
+                            and x["c"][1].get("k") == "MemberExpr" and x["c"][1].get("member") == n.get("member"):
+                        out |= self.of(g, x["c"][2], depth + 1)
+                    elif x.get("k") == "BinaryOperator" and x.get("op") == "=" \
+                            and x["c"][0].get("k") == "MemberExpr" and x["c"][0].get("member") == n.get("member"):
+                        out |= self.of(g, x["c"][1], depth + 1)
+            return out or {None}
+        if k == "CXXMemberCallExpr":
+            callee = self.fx.functions.get(n.get("calleeKey"))
+            if callee is not None and callee.body is not None:
+                rets = [x for x in callee.walk() if x.get("k") == "ReturnStmt"]
+                out = set()
+                for r in rets:
+                    for v in F.children(r):
+                        out |= self.of(callee, v, depth + 1)
+                return out or {None}
+        return {None}
+
+
+def writer_elements(ctx, fx, T):
+    """element names written by the adjustment-XML writer: (opened, closed, where-by-name)"""
+    anchor = fx.fn(T["writer_class"] + "::" + T["writer_entry"])
+    files = {f.file for f in fx.methods_of(T["writer_class"])}
+    scope = [f for f in fx.functions.values() if f.file in files and f.body is not None and f.cls]
+    S = _Strings(fx, scope)
+    opened, closed, where = set(), set(), {}
+    n_lit = 0
+    for f in scope:
+        inner = set()
+        chains = []
+        for n in f.walk():
+            ops = _flatten_stream(n)
+            if ops is not None and n["id"] not in inner:
+                chains.append(ops)
+                for x in walk(n):
+                    if x is not n and x.get("k") == "CXXOperatorCallExpr" and x.get("op") == "<<":
+                        # nested part of the same chain (left spine) - skip when visited later
+                        pass
+                # mark the left spine as consumed
+                cur = n
+                while True:
+                    c = cur.get("c") or []
+                    if len(c) == 3 and c[1].get("k") == "CXXOperatorCallExpr" and c[1].get("op") == "<<":
+                        inner.add(c[1]["id"])
+                        cur = c[1]
+                    else:
+                        break
+        covered = set()
+        for ops in chains:
+            for i, o in enumerate(ops):
+                lit = o
+                while lit is not None and lit.get("k") in _CASTS and lit.get("c"):
+                    lit = lit["c"][0]
+                if lit is None or lit.get("k") != "StringLiteral":
+                    continue
+                covered.add(lit["id"])
+                text = lit.get("v") or ""
+                if "<" not in text:
+                    continue
+                ctx.saw(f)
+                n_lit += 1
+                for m in _TAG_RE.finditer(text):
+                    close, name = m.group(1), m.group(2)
+                    rest = text[m.end():]
+                    if name is None:
+                        if text[m.end():m.end() + 1] in ("?", "!"):
+                            continue
+                        if rest.strip():
+                            continue            # a bare '<' inside text, not markup
+                        if i + 1 >= len(ops):
+                            raise AnalysisBroken("%s: '<' is written without an element name" % f.where(lit))
+                        vals = S.of(f, ops[i + 1])
+                        if None in vals or not vals:
+                            raise AnalysisBroken("%s: the element name written after '<' is not a literal"
+                                                 % f.where(lit))
+                        nm = set()
+                        for v in vals:
+                            mm = re.match(r"[A-Za-z_][A-Za-z0-9_.\-]*", v)
+                            if not mm:
+                                raise AnalysisBroken("%s: %r is not an element name" % (f.where(lit), v))
+                            nm.add(mm.group(0))
+                    else:
+                        nm = {name}
+                    for x in nm:
+                        (closed if close else opened).add(x)
+                        where.setdefault(x, f.where(lit))
+                        if not close and re.match(r"\s*/>", rest) and name is not None:
+                            closed.add(x)
+        # literals with markup that are not written through a recognised ostream chain
+        for n in f.walk():
+            if n.get("k") == "StringLiteral" and n["id"] not in covered and _TAG_RE.search(n.get("v") or "") \
+                    and re.search(r"</?[A-Za-z]", n.get("v") or ""):
+                raise AnalysisBroken("%s: markup literal %r is not an operand of an ostream insertion"
+                                     % (f.where(n), n.get("v")))
+    ctx.floor(RULE, 150, n_lit, "markup literals in the adjustment-XML writer")
+    return opened, closed, where, anchor
+
+
+def rule_xsd_adjxml(ctx):
+    fx = ctx.facts
+    T = table()["xsd_adjxml"]
+    xsd = Xsd(os.path.join(ctx.root, T["schema"]))
+    opened, closed, where, anchor = writer_elements(ctx, fx, T)
+    tag_fn = fx.fn(T["reader_class"] + "::tag")
+    ctx.saw(tag_fn)
+    known = set(fsm.tag_function_map(tag_fn))
+    declared = set(xsd.all_names)
+    diffs = T.get("differences", {})
+    n = 0
+    for name in sorted(opened | closed | known | declared | set(diffs)):
+        member = {"writer": name in opened, "reader": name in known, "xsd": name in declared}
+        problems = []
+        if (name in opened) != (name in closed):
+            problems.append("written as %s tag only" % ("a start" if name in opened else "an end"))
+        if name in diffs:
+            want = set(diffs[name]["in"])
+            have = {k for k, v in member.items() if v}
+            if want != have or len(have) == 3:
+                problems.append("stale entry in the table of documented differences (now in %s)" % sorted(have))
+        elif not all(member.values()):
+            problems.append("element <%s> is %s" % (name, ", ".join(
+                "%s by the %s" % ("known" if v else "NOT known", k) if k != "xsd" else
+                "%s in %s" % ("declared" if v else "NOT declared", os.path.basename(T["schema"]))
+                for k, v in sorted(member.items()))))
+        n += 1
+        ctx.report(RULE, "adjxml:vocabulary:%s" % name, not problems,
+                   where.get(name, tag_fn.where()), anchor.short, msg="; ".join(problems), detail=member)
+    ctx.floor(RULE, 95, n, "adjustment-XML element names compared")
